@@ -69,6 +69,8 @@ impl TombstoneLog {
     ) -> Result<Self> {
         let mut recovered = vec![];
 
+        // Byte offset of the current partition within the whole log.
+        let mut base = 0;
         for partition in partitions.iter() {
             for offset in (0..partition.size()).step_by(PAGE) {
                 tracing::trace!(offset, "[tombstone log]: recover at");
@@ -83,7 +85,7 @@ impl TombstoneLog {
                     let tombstone = Tombstone::read(buf);
                     if tombstone.sequence > seq {
                         seq = tombstone.sequence;
-                        addr = slot * Tombstone::SERIALIZED_LEN;
+                        addr = base + offset + slot * Tombstone::SERIALIZED_LEN;
                     }
                     if tombstone.sequence == 0 {
                         continue;
@@ -91,6 +93,7 @@ impl TombstoneLog {
                     recovered.push((tombstone, addr));
                 }
             }
+            base += partition.size();
         }
 
         tracing::trace!(?recovered, "[tombstone log]: recovered tombstones");
@@ -106,14 +109,8 @@ impl TombstoneLog {
 
         tombstones.extend(recovered.into_iter().map(|(tombstone, _)| tombstone));
 
-        let latest_tombstone_page = latest_tombstone_offset / PAGE;
-        let latest_tombstone_slot = if latest_tombstone_page == 0 {
-            latest_tombstone_offset / Tombstone::SERIALIZED_LEN
-        } else {
-            let pages_before_latest_tombstone = latest_tombstone_page - 1;
-            Self::SLOTS_PER_PAGE * pages_before_latest_tombstone
-                + (latest_tombstone_offset - pages_before_latest_tombstone * PAGE) / Tombstone::SERIALIZED_LEN
-        };
+        // The offset is relative to the start of the log, so it directly yields the global slot index.
+        let latest_tombstone_slot = latest_tombstone_offset / Tombstone::SERIALIZED_LEN;
 
         let pages = partitions.iter().map(|p| p.size()).sum::<usize>() / PAGE;
         let slot = latest_tombstone_slot + 1;
